@@ -357,6 +357,16 @@ Definition struct_unchanged (flt : list bytes) (p : bytes) (old : stree) (cur : 
   struct_toks (nonempty flt) p (rebuild matches flt old cur) = struct_toks (nonempty flt) p old.
 End Match2.
 
+(* The exclusion patterns are part of the FilteredDirectoryContents / signature keys and (repaired code) of the node's
+   signature: after an edit of the patterns the node runs again and asks for NEW keys, which have no stored value, while
+   the Node(path) records (keys without patterns) are still there.  Modelled by a state whose Stat records equal no
+   record stat() can return, so that no stored listing is reused. *)
+Fixpoint forget_listings (s : stree) : stree :=
+  match s with
+  | SMissing => SMissing
+  | SNode ni _ cs => SNode ni missing_info (map (fun nc : bytes * stree => (fst nc, forget_listings (snd nc))) cs)
+  end.
+
 (* ------------------------------------------------------------------ vocabulary of the statements *)
 
 (* the database state with the Stat records forgotten *)
